@@ -27,3 +27,10 @@ ENTRY["monitor_sigs"] = ENTRY["monitor_sigs"] + ["qbftwire:tampered_accepted", "
                                                  "qbftwire:cross_duty_accepted", "qbftwire:value_hash_mismatch_accepted",
                                                  "qbftwire:malformed_accepted", "qbftwire:limit_exceeded_accepted"]
 ENTRY["trusted_base"] = ENTRY["trusted_base"] + ["the adversary of the system model (Spec/QbftSys admMsg) is what C05's accept_sound/accept_authentic admit; the admission stream qbftwire (real Consensus.handle, see C05) is run by this check as well"]
+
+# one qbft.Run per duty and node is a premise of the agreement proof (a second run with virgin state would make an
+# honest node equivocate): the wrapper model of C03 (Props/C03Wrap.one_run_per_duty, stream conswrap) is part of this check
+from vlib import snippet_C03wrap as _w
+ENTRY["streams"] = ENTRY["streams"] + [dict(_w.STREAM, seeds_quick=1)]
+ENTRY.setdefault("lean_props_extra", []).append(_w.EXTRA_LEAN)
+ENTRY["monitor_sigs"] = ENTRY["monitor_sigs"] + ["conswrap:two_runs_for_duty", "conswrap:run_after_expiry", "conswrap:decide_delivered_twice", "conswrap:io_not_deleted"]
